@@ -18,6 +18,12 @@ def tiny(l):
     lex['entries'] = [{'id': sid + '-w', 'meta': None,
                        'lemma': {'writtenForm': 'w', 'partOfSpeech': 'n'},
                        'senses': [{'id': sid + '-w-1', 'synset': sid, 'meta': None}]}]
+    # dependencies on lexicons that are never installed - another version of an id that may
+    # be, and an unknown id: selection does not depend on them (the constructor only warns)
+    if l['id'] == 'ab':
+        lex['requires'] = [{'id': 'a', 'version': '9'}]
+    elif l['id'] == 'b-c':
+        lex['requires'] = [{'id': 'zz', 'version': '1'}]
     return lex
 
 
